@@ -3,6 +3,8 @@ package client
 import (
 	"context"
 
+	"go.miragespace.co/specter/util/verifhook"
+
 	"go.uber.org/zap"
 )
 
@@ -26,6 +28,7 @@ func (c *Client) doReload(ctx context.Context) {
 	onReload := func(prev, curr []Tunnel) {
 		diff := diffTunnels(prev, curr)
 		c.closeOutdatedProxies(diff...)
+		verifhook.At("client:reload:closed", 0)
 		c.Configuration.buildRouter(diff...)
 	}
 	c.configMu.Lock()
